@@ -87,6 +87,13 @@ pub fn alphabet() -> Vec<Call> {
         c("i64", "1)", "0"),
         c("i64", "(1+2)*3", "0"),
         // the same function argument as in another evaluator's calls (a memo shared between evaluators)
+        // a small and a large argument of the same looping function (a table or memo sized by the first call)
+        c("f64", "3!", &f(0.0)),
+        c("f64", "25!", &f(0.0)),
+        c("number", "3!", "I0"),
+        c("number", "25!", "I0"),
+        c("decimal", "3!", &d("0")),
+        c("decimal", "25!", &d("0")),
         // superscript runs (all five tokenizers share one helper for them)
         c("f64", "2¹⁰", &f(0.0)),
         c("i64", "3²+@³", "2"),
